@@ -18,7 +18,7 @@
        correspondence; the composition client <-> server is additionally run on
        the real implementations by the trip cases of this check.
    The envelope half (sender and recipients arrive as given) is C14. *)
-From Smtp Require Import Bytes Transport DataReader DotSpec TransportProofs DataProofs DotWriter DotWriterProofs C16Proofs.
+From Smtp Require Import Bytes Transport DataReader DotSpec TransportProofs DataProofs DotWriter DotWriterProofs C16Proofs DotSpecOrder DotWriterOrder.
 
 Theorem C16_roundtrip : forall parts tail, cr_only_in_crlf (List.concat parts) = true ->
   unstuff (dot_write_all parts ++ tail) = Complete (normalise (List.concat parts)) tail.
@@ -34,6 +34,17 @@ Theorem C16_framed_for_any_body : forall parts tail,
   unstuff (dot_write_all parts ++ tail) = Complete (dw_received (List.concat parts)) tail.
 Proof. exact dot_roundtrip_parts_any. Qed.
 Print Assumptions C16_framed_for_any_body.
+
+(* for EVERY body, also one with bare CRs (outside the domain of C16_roundtrip):
+   the message the server side extracts from what the client wrote contains
+   every octet of the body, in order - nothing dropped, duplicated or
+   reordered; only line-ending octets are added *)
+Theorem C16_nothing_dropped : forall parts tail,
+  exists received,
+    unstuff (dot_write_all parts ++ tail) = Complete received tail /\
+    subseq (List.concat parts) received.
+Proof. exact dot_write_nothing_dropped. Qed.
+Print Assumptions C16_nothing_dropped.
 
 Theorem C16_already_canonical : forall body tail,
   cr_only_in_crlf body = true -> lf_only_in_crlf false body = true -> ends_with crlf body = true ->
